@@ -32,6 +32,11 @@ Definition n_contours (els : list (PathEl T)) : nat := length (filter is_move el
 Definition verts (els : list (PathEl T)) : list (Point T) :=
   flat_map (fun e => match el_end e with Some p => [p] | None => [] end) els.
 
+(** every element's end point satisfies [P] *)
+Definition end_ok (P : Point T -> Prop) (e : PathEl T) : Prop :=
+  match el_end e with Some p => P p | None => True end.
+Definition all_ends (P : Point T -> Prop) (els : list (PathEl T)) : Prop := Forall (end_ok P) els.
+
 (** all points mentioned by the elements (control points included) *)
 Definition el_pts (e : PathEl T) : list (Point T) :=
   match e with
@@ -97,6 +102,14 @@ Definition vec (a b : Point R) : Vec2 R := mkVec2 (px b - px a) (py b - py a).  
 Definition near (V : list (Point R)) (r2 : R) (v : Point R) : Prop :=
   exists p, In p V /\ dist2 v p <= r2.
 
+(** the square of the farthest the style lets an outline vertex be from its source vertex:
+    width/2, times sqrt 2 with a square cap, times the miter limit with miter joins *)
+Definition is_square (c : Cap) : bool := match c with CapSquare => true | _ => false end.
+Definition reach2 (st : StrokeStyle R) : R :=
+  let k := sk_width st / 2 in
+  k * k * Rmax 1 (Rmax (match sk_join st with JoinMiter => sk_miter_limit st * sk_miter_limit st | _ => 1 end)
+                       (if is_square (sk_start_cap st) || is_square (sk_end_cap st) then 2 else 1)).
+
 (** shoelace formula: twice the signed area of the polygon through the points *)
 Fixpoint shoelace_from (first prev : Point R) (ps : list (Point R)) : R :=
   match ps with
@@ -105,3 +118,136 @@ Fixpoint shoelace_from (first prev : Point R) (ps : list (Point R)) : R :=
   end.
 Definition shoelace2 (ps : list (Point R)) : R :=
   match ps with [] => 0 | p :: r => shoelace_from p p r end.
+
+(** ** the two sides of a polyline's outline, written as functions of the source points
+    ([side = false]: forward path, sign -1; [side = true]: backward path, sign +1).
+    A point equal to its predecessor contributes nothing (the stroker skips it). *)
+Definition sgn (side : bool) : R := if side then 1 else -1.
+
+Definition side_join (st : StrokeStyle R) (side : bool) (p0 : Point R) (ab : Vec2 R) (th : R) (cd : Vec2 R)
+  : list (PathEl R) :=
+  let j := join_els st p0 ab th cd in if side then snd (fst j) else fst (fst j).
+
+Fixpoint side_rest (st : StrokeStyle R) (th : R) (side : bool) (lp : Point R) (lt : Vec2 R) (ps : list (Point R))
+  : list (PathEl R) :=
+  match ps with
+  | [] => []
+  | p :: r =>
+      if pt_neb p lp then
+        side_join st side lp lt th (vec lp p) ++
+        LineTo (offs (sk_width st) (sgn side) (vec lp p) p) :: side_rest st th side p (vec lp p) r
+      else side_rest st th side lp lt r
+  end.
+
+Fixpoint side_path (st : StrokeStyle R) (th : R) (side : bool) (p0 : Point R) (ps : list (Point R))
+  : list (PathEl R) :=
+  match ps with
+  | [] => []
+  | p :: r =>
+      if pt_neb p p0 then
+        MoveTo (offs (sk_width st) (sgn side) (vec p0 p) p0) ::
+        LineTo (offs (sk_width st) (sgn side) (vec p0 p) p) :: side_rest st th side p (vec p0 p) r
+      else side_path st th side p0 r
+  end.
+
+(** the first point different from [p0], with the points after it *)
+Fixpoint first_edge (p0 : Point R) (ps : list (Point R)) : option (Point R * list (Point R)) :=
+  match ps with
+  | [] => None
+  | p :: r => if pt_neb p p0 then Some (p, r) else first_edge p0 r
+  end.
+
+(** last point and last non-degenerate edge vector after walking [ps] from ([lp], [lt]) *)
+Fixpoint last_state (lp : Point R) (lt : Vec2 R) (ps : list (Point R)) : Point R * Vec2 R :=
+  match ps with
+  | [] => (lp, lt)
+  | p :: r => if pt_neb p lp then last_state p (vec lp p) r else last_state lp lt r
+  end.
+
+(** ** joins and caps in this vocabulary *)
+
+(** the join test of [do_join]: emitted unless the turn is forward and below the threshold *)
+Definition emitted (ab cd : Vec2 R) (th : R) : Prop :=
+  rdot ab cd <= 0 \/
+  sqrt (rcross ab cd * rcross ab cd + rdot ab cd * rdot ab cd) * th <= Rabs (rcross ab cd).
+
+(** the extra vertex on the inner side of the turn (repaired join only) *)
+Definition piv_f (st : StrokeStyle R) (p0 : Point R) (X : R) : list (PathEl R) :=
+  if sk_inner_pivot st then (if Rltb 0 X then [] else if Rltb X 0 then [LineTo p0] else []) else [].
+Definition piv_b (st : StrokeStyle R) (p0 : Point R) (X : R) : list (PathEl R) :=
+  if sk_inner_pivot st then (if Rltb 0 X then [LineTo p0] else []) else [].
+
+Definition miter_pt (w s : R) (p0 : Point R) (ab cd : Vec2 R) : Point R :=
+  let fp_last := offs w s ab p0 in
+  let fp_this := offs w s cd p0 in
+  let h := rcross ab (vec fp_last fp_this) / rcross ab cd in
+  mkPoint (px fp_this - vx cd * h) (py fp_this - vy cd * h).
+
+Definition join_core (st : StrokeStyle R) (p0 : Point R) (ab cd : Vec2 R)
+  : list (PathEl R) * list (PathEl R) * Z :=
+  let w := sk_width st in
+  let X := rcross ab cd in let D := rdot ab cd in let Hy := sqrt (X * X + D * D) in
+  let ml := sk_miter_limit st in
+  match sk_join st with
+  | JoinBevel => ([LineTo (offs w (-1) cd p0)], [LineTo (offs w 1 cd p0)], 1%Z)
+  | JoinMiter =>
+      if Rltb (2 * Hy) ((Hy + D) * (ml * ml)) then
+        if Rltb 0 X then
+          ([LineTo (miter_pt w (-1) p0 ab cd); LineTo (offs w (-1) cd p0)], [LineTo (offs w 1 cd p0)], 2%Z)
+        else if Rltb X 0 then
+          ([LineTo (offs w (-1) cd p0)], [LineTo (miter_pt w 1 p0 ab cd); LineTo (offs w 1 cd p0)], 3%Z)
+        else ([LineTo (offs w (-1) cd p0)], [LineTo (offs w 1 cd p0)], 4%Z)
+      else ([LineTo (offs w (-1) cd p0)], [LineTo (offs w 1 cd p0)], 5%Z)
+  | JoinRound =>
+      if Rltb 0 (Ratan2 X D) then
+        (round_join_els tol_1e_3 p0 (left_norm w cd) (Ratan2 X D), [LineTo (offs w 1 cd p0)], 6%Z)
+      else
+        ([LineTo (offs w (-1) cd p0)], round_join_rev_els tol_1e_3 p0 (v_neg (left_norm w cd)) (- Ratan2 X D), 7%Z)
+  end.
+
+
+(** what a cap appends, as a function of the end point and the tangent there *)
+Definition end_cap_at (st : StrokeStyle R) (p : Point R) (t : Vec2 R) : list (PathEl R) :=
+  let w := sk_width st in
+  match sk_end_cap st with
+  | CapButt => [LineTo (offs w 1 t p)]
+  | CapRound => round_cap_els tol_1e_3 p (pt_sub p (offs w 1 t p))
+  | CapSquare => square_cap_els false p (pt_sub p (offs w 1 t p))
+  end.
+Definition start_cap_at (st : StrokeStyle R) (p : Point R) (t : Vec2 R) : list (PathEl R) :=
+  let w := sk_width st in
+  match sk_start_cap st with
+  | CapButt => [ClosePath]
+  | CapRound => round_cap_els tol_1e_3 p (left_norm w t)
+  | CapSquare => square_cap_els true p (left_norm w t)
+  end.
+
+(** the point with foot parameter [al] on the segment from [p0] along [t] and signed distance
+    [be * w/2] to its left *)
+Definition seg_point (w : R) (p0 : Point R) (t : Vec2 R) (al be : R) : Point R :=
+  mkPoint (px p0 + al * vx t + be * (w / 2) * (- vy t / vlen t))
+          (py p0 + al * vy t + be * (w / 2) * (vx t / vlen t)).
+
+(** ** vocabulary of the region-level statement for polylines *)
+
+(** the point at parameter lam on the segment a b *)
+Definition lerp (a b : Point R) (lam : R) : Point R :=
+  mkPoint (px a + lam * (px b - px a)) (py a + lam * (py b - py a)).
+
+(** parameter of the foot of q on the line through p0 p1 (0 at p0, 1 at p1), and the signed distance of q
+    from that line in units of w/2 (positive on the left) *)
+Definition foot_par (p0 p1 q : Point R) : R :=
+  rdot (vec p0 q) (vec p0 p1) / (vlen (vec p0 p1) * vlen (vec p0 p1)).
+Definition rel_dist (w : R) (p0 p1 q : Point R) : R :=
+  rcross (vec p0 p1) (vec p0 q) / ((w / 2) * vlen (vec p0 p1)).
+
+(** q is farther than sqrt r2 from every point of the segment a b *)
+Definition seg_far (a b q : Point R) (r2 : R) : Prop :=
+  forall u, 0 <= u <= 1 -> r2 < dist2 q (lerp a b u).
+
+(** the non-degenerate edges of a polyline, as the stroker walks it *)
+Fixpoint poly_edges (lp : Point R) (ps : list (Point R)) : list (Point R * Point R) :=
+  match ps with
+  | [] => []
+  | p :: r => if pt_neb p lp then (lp, p) :: poly_edges p r else poly_edges lp r
+  end.
